@@ -28,19 +28,28 @@ from props.c14_extract import extract, KINDS  # noqa: F401  (extract is picked u
 
 MODEL = "serial"
 SHRINKABLE = True
-RULE = ("generated fonts (1-3 layers, 0-5 glyphs each with contours/components/anchors/guidelines/image/libs, info, "
-        "kerning, groups, features, libs, temp libs, font guidelines, images, data; built by API, or saved as UFO 3/2 and "
-        "re-opened with unread / partly read / fully read glyphs, then optionally edited) x picked object of each of the 16 "
-        "kinds x {data dict, pickle} x {new parent-less object, new object inside a font}; non-trivial = the picked object "
-        "has content beyond a fresh object's; distinct = distinct case descriptions")
+RULE = ("generated fonts (1-3 layers, 0-5 glyphs each with contours/components/anchors/guidelines/image/libs built in two API "
+        "styles, info, kerning, groups, features, libs, temp libs, font guidelines, images, data; built by API, or saved as "
+        "UFO 3 / UFO 2 / zipped UFO 3 and re-opened with unread / partly read / fully read glyphs and unread images/data, some with an image "
+        "file named by another tool; then optionally edited: delete/rename/replace glyphs, clear/reverse contours, remove "
+        "anchors/components/guidelines, delete layers/images/data, change default layer ...) x picked object of each of the "
+        "16 kinds x {data dict, pickle} x {new parent-less object, new object inside a font} + keys/partial ops with "
+        "whitelist/blacklist; the original is serialized untouched (the model's input is taken from an identically made "
+        "twin); non-trivial = the picked object has content beyond a fresh object's; distinct = distinct case descriptions")
 ASSUMPTIONS = [
     "defcon with repo_fixes/C14-*.diff applied (font guideline identifiers = F22, Layer.GlyphAdded on rebuild, image-set file names)",
     "identifiers in use inside one glyph / among the font guidelines are unique (C10's invariant); otherwise the rebuild "
-    "raises AssertionError, which the model reproduces",
-    "objects are edited through their attribute API: an Image keeps its eight keys, colours are in Color()'s normal form, "
-    "Info values passed ufoLib's validator (every way in goes through the same setter)",
+    "raises AssertionError, which the model reproduces (theorem glyph_rebuild_rejects_duplicate_identifiers)",
+    "objects are edited through their attribute API: an Image keeps its eight entries (theorem "
+    "image_entries_hypothesis_needed shows what happens otherwise), colours are in Color()'s normal form, Info values "
+    "passed ufoLib's validator (every way in goes through the same setter)",
+    "the target is a NEW object of the kind (parent-less; for glyph and layer also freshly made inside a new font; for a "
+    "layer set: font.instantiateLayerSet() of a new font, because a LayerSet without a font cannot hold glyphs at all); "
+    "feeding data to an object that already has content is not part of the property and not exercised",
     "a layer's name and a glyph's name are owned by the container (layer set tuple / layer dict key): a parent-less "
-    "Layer rebuilt from layer data has no name (compared at layer-set and font level)",
+    "Layer rebuilt from layer data has no name (names are compared at layer-set and font level)",
+    "Lib.getParent() is not judged (it answers whichever ancestor happens to be cached, in any font); the lib's "
+    "font/layerSet/layer/glyph accessors are",
     "independence (no shared mutable values between original and rebuilt object via the un-pickled data dict) is not "
     "claimed by the property and not checked",
     "path, ufoFileStructure, dirty flags, representations, undo managers, load state stamps are not part of the "
@@ -48,7 +57,8 @@ ASSUMPTIONS = [
     "component graphs are acyclic",
 ]
 TRUSTED = ["the canonical text of leaf Python values (harness cv(): ints and integral floats coincide, as Python's == "
-           "does); pickle itself; UFOs for the re-opened variants are written by defcon's own Font.save"]
+           "does); pickle itself; UFOs for the re-opened variants are written by defcon's own Font.save; two fonts made by the "
+           "same deterministic procedure are in the same state (original / twin)"]
 
 PNG = b"\x89PNG\r\n\x1a\n"
 # scratch UFOs: a memory file system when there is one (an order of magnitude faster than /tmp here)
@@ -326,7 +336,7 @@ HISTORY_OPS = ["delGlyph", "renameGlyph", "clearContours", "reverseContour", "re
 
 def g_case(rng, tier, kind=None):
     size = rng.choice([0, 1, 1, 2, 2])
-    via = rng.choice(["api", "api", "api", "ufo3", "ufo3", "ufo2"])
+    via = rng.choice(["api", "api", "api", "api", "ufo3", "ufo3", "ufo3", "ufo2", "ufoz"])
     font = g_font(rng, size, wild=(via == "api" and rng.random() < 0.3))
     case = dict(font=font, via=via)
     all_glyphs = sorted({g["name"] for l in font["layers"] for g in l["glyphs"]})
@@ -356,7 +366,7 @@ def g_case(rng, tier, kind=None):
 
 
 def generate(rng, tier):
-    n = 1300 if tier == "quick" else 24000
+    n = 1000 if tier == "quick" else 20000
     kinds = [k for k, _, _ in KINDS]
     for i in range(n):
         # every kind is hit regularly; the rest is drawn at random (fonts and glyphs more often)
@@ -374,7 +384,7 @@ def neighbourhood(case, step, rng):
                 ops.append(["roundtrip", "dict", "infont"])
             c["ops"] = ops
             yield c
-    for via in ("api", "ufo3", "ufo2"):
+    for via in ("api", "ufo3", "ufo2", "ufoz"):
         c = json.loads(json.dumps(case))
         c["via"] = via
         c["pick"] = dict(kind="font", a=0, b=0, c=0)
@@ -623,7 +633,7 @@ class Built(object):
         f = build_font(fd)
         if via != "api":
             self.tmp = tempfile.mkdtemp(prefix="c14_", dir=_TMPROOT)
-            path = os.path.join(self.tmp, "f.ufo")
+            path = os.path.join(self.tmp, "f.ufoz" if via == "ufoz" else "f.ufo")
             # what cannot be written to a UFO is taken out first (temp libs are re-applied after re-opening)
             for lib in [f.lib] + [l.lib for l in f.layers] + [g.lib for l in f.layers for g in l]:
                 for k in list(lib.keys()):
@@ -631,7 +641,10 @@ class Built(object):
                         del lib[k]
             self.keep.append(f)
             try:
-                f.save(path, formatVersion=3 if via == "ufo3" else 2)
+                if via == "ufoz":
+                    f.save(path, formatVersion=3, structure="zip")
+                else:
+                    f.save(path, formatVersion=3 if via == "ufo3" else 2)
                 saved = True
             except Exception as e:
                 saved = False
@@ -914,7 +927,7 @@ class Walk(object):
 GL = ["font", "layerSet", "layer", "glyph"]
 
 
-def walk_glyph(w, p, g, ctx, chain, standalone_root=False):
+def walk_glyph(w, p, g, ctx, chain):
     """facts of a glyph; `chain` = ancestors above the glyph (layer, layerSet, font)"""
     pens = pens_of(g)
     w.add(p + "/name", cv(g.name))
@@ -1220,12 +1233,6 @@ def relay_probes(font):
 # one case on the implementation
 # ---------------------------------------------------------------------------------------
 
-def new_object(kind):
-    import defcon
-    cls = {k: c for k, _, c in KINDS}[kind]
-    return getattr(defcon, cls)() if hasattr(defcon, cls) else None
-
-
 def _new(kind):
     from defcon.objects.font import Font
     from defcon.objects.layerSet import LayerSet
@@ -1346,8 +1353,11 @@ def run_impl(case):
                 viol.append(dict(clause="C14/serialize-raises", signature=sig("serialize-raises", kind, exc_name(fv)),
                                  op=op, detail=repr(fv)[:300]))
                 continue
+            st("op." + op[0])
             if op[0] == "keys":
                 outs.append([Atom("keys")] + [ck(k) for k in fv[0]])
+                st("keys.whitelist" if op[1] is not None else "keys.no-whitelist")
+                st("keys.blacklist" if op[2] is not None else "keys.no-blacklist")
                 if fv[0] != fv[1]:
                     viol.append(dict(clause="C14/pickle-differs", signature=sig("pickle-differs", kind, "keys"), op=op))
                 continue
